@@ -503,7 +503,13 @@ fn rand_fields(rng: &mut Rng, cfg: &GenCfg, defs: &[Def], nparams: usize, self_i
 pub fn rand_def(rng: &mut Rng, cfg: &GenCfg, defs: &[Def], idx: usize) -> Def {
     let ns = *rng.pick(&NAMESPACES);
     let mut path: Vec<String> = ns.iter().map(|s| s.to_string()).collect();
-    path.push(format!("{}{}", rng.pick(&NAMES), if rng.chance(1, 2) { String::new() } else { format!("{}", idx) }));
+    // sometimes reuse the final identifier of an earlier definition (in another module):
+    // `a::Call` and `c::Call` are typical of chain metadata
+    if !defs.is_empty() && rng.chance(1, 5) {
+        path.push(rng.pick(defs).path.last().unwrap().clone());
+    } else {
+        path.push(format!("{}{}", rng.pick(&NAMES), if rng.chance(1, 2) { String::new() } else { format!("{}", idx) }));
+    }
     // unique path per definition (same-path families have their own generator)
     if defs.iter().any(|d| d.path == path) {
         let l = path.len() - 1;
